@@ -19,7 +19,9 @@ EXPLANATION = (
     "of a freshly built object holding the same driver and parameters, and a compute() on unset / inadmissible parameters must "
     "raise. In addition a structural cache rule: every lazily filled private cache (pattern `if self._x is None: fill`) is reset by "
     "every method that stores to one of the fields its fill reads. Stocks built from definitions are the same classes (C18). "
-    "Histories also cover: an equidistant grid with parameters first shared by all cohorts and then varying over time (and the reverse), given via constructor or set_prms; a concrete unit grid with concrete fixed lifetimes, where the zero pattern of the tables changes with the parameters.")
+    "Histories also cover: an equidistant grid with parameters first shared by all cohorts and then varying over time (and the reverse), given via constructor or set_prms; a concrete unit grid with concrete fixed lifetimes, where the zero pattern of the tables changes with the parameters."
+    ' Rule C17.cleanup-catches-every-failure: a handler that drops a cache stored before it was filled catches Exception or more.'
+)
 TECHNIQUE = "static analysis: typestate/history enumeration by abstract interpretation over symbolic forms (object vs. fresh object after every compute) + cache-invalidation rule"
 
 
